@@ -32,7 +32,7 @@ def shards(tier, seed):
 def requirements(tier):
     return {"trimmed_interval_checked": 1500, "trimmed_definition_checked": 1500, "krum_selection_checked": 1000, "too_few_rows_rejected": 100,
             "enough_rows_accepted": 100, "w_corruption_at_max_magnitude": 200, "w_krum_m_minus_f_minus_1_would_differ": 50, "w_all_b_rows_corrupted": 200,
-            "w_float32": 500, "w_krum_k_ge_2": 200}
+            "w_float32": 500, "w_krum_k_ge_2": 200, "w_krum_more_than_25_rows": 100}
 
 
 def corrupt(rng, H, rows, scale):
@@ -65,6 +65,23 @@ def gen_case(rng, i):
         k = int(rng.integers(0, b + 1)) if rng.random() < 0.5 else b
         rows = [int(x) for x in rng.choice(m, size=k, replace=False)]
         return {"agg": {"name": "TrimmedMean", "b": b}, "H": H.tolist(), "rows": rows, "J": corrupt(rng, H, rows, scale).tolist(), "dtype": dname, "scale": scale}
+    if rng.random() < 0.15:
+        # many workers whose gradients agree to ~1e-5 relative (a large common component, a tiny spread): distances must still
+        # be computed accurately (no |a|^2 + |b|^2 - 2ab cancellation); byzantine rows only moderately outside the cluster
+        f = int(rng.integers(1, 13))
+        m = int(rng.integers(max(26, f + 3), 41))
+        n = int(rng.integers(8, 65))
+        ksel = int(rng.integers(1, 7))
+        mag = float(10 ** rng.uniform(1.5, 3))
+        spread = mag * float(10 ** rng.uniform(-5.2, -4.5)) if dname == "float32" else mag * float(10 ** rng.uniform(-9, -6))
+        centre = rng.standard_normal(n) * mag
+        H = centre + spread * rng.standard_normal((m, n))
+        k = int(rng.integers(0, f + 1))
+        rows = [int(x) for x in rng.choice(m, size=k, replace=False)]
+        J = H.copy()
+        for r in rows:
+            J[r] = centre + spread * float(rng.uniform(10, 50)) * rng.choice([-1.0, 1.0])
+        return {"agg": {"name": "Krum", "f": f, "k": ksel}, "H": H.tolist(), "rows": rows, "J": J.tolist(), "dtype": dname, "scale": spread, "class": "many_near_identical_rows"}
     f = int(rng.integers(0, 4))
     m = int(rng.integers(f + 3, f + 8))
     ksel = int(rng.integers(1, max(2, m - f)))
@@ -153,6 +170,8 @@ def check_case(case, ctx):
             ctx.count("w_krum_m_minus_f_minus_1_would_differ")
         if k >= 2:
             ctx.count("w_krum_k_ge_2")
+        if m > 25:
+            ctx.count("w_krum_more_than_25_rows")
     if dname == "float32":
         ctx.count("w_float32")
     ctx.evaluated(fingerprint(case), nontrivial=big)
